@@ -399,4 +399,12 @@ def rowMajor : List Nat → List Nat
 /-- trailing-blank padding to 8 characters (what FITS does to short string values) -/
 def pad8 (v : Str) : Str := v ++ List.replicate (8 - v.length) ' '
 
+/-- the number of characters a string value occupies between the quotes of a FITS card: an apostrophe is stored
+    doubled (`write_key` accepts a value for a standard keyword when this is at most 68) -/
+def storedLen (v : Str) : Nat := v.length + v.count '\''
+
+/-- trailing-blank padding in general: FITS pads the *stored* form to 8 characters, so a value with apostrophes gains
+    `8 - (length + number of apostrophes)` blanks.  Equal to `pad8` for values without apostrophes. -/
+def padFits (v : Str) : Str := v ++ List.replicate (8 - storedLen v) ' '
+
 end PsV.Fits
